@@ -211,6 +211,8 @@ int harness_main(int argc, char **argv, PropDef &def)
 	auto t0 = std::chrono::steady_clock::now();
 	auto tfail = t0;
 	double shrink_budget = atof(arg(argc, argv, "--shrink-budget", "40").c_str());
+	std::string corpus_out = arg(argc, argv, "--corpus-out", "");   // export non-trivial cases as libFuzzer seed inputs
+	int corpus_n = 0;
 	uint64_t skipped_budget = 0;
 
 	auto gen = rc::gen::scale(def.tape_scale, rc::gen::container<std::vector<uint32_t>>(rc::gen::arbitrary<uint32_t>()));
@@ -236,6 +238,10 @@ int harness_main(int argc, char **argv, PropDef &def)
 		CaseResult r = def.run(t);
 		alarm(0);
 		if (!have_fail) st.add(r, t);
+		if (!have_fail && r.ok && r.nontrivial && !corpus_out.empty() && corpus_n < 64 && (st.nontrivial % 7) == 1) {
+			Bytes b = t.as_bytes();
+			if (b.size() <= 4096) { char fn[64]; snprintf(fn, sizeof fn, "/seed-%03d", corpus_n++); std::ofstream cf(corpus_out + fn, std::ios::binary); cf.write((const char *)b.data(), (std::streamsize)b.size()); }
+		}
 		if (!r.ok) {
 			if (!have_fail) tfail = std::chrono::steady_clock::now();
 			have_fail = true; lastfail = r; lastfail_used = t.used;
